@@ -10,9 +10,9 @@ PY = '/venv/bin/python'
 # id -> (technique, level text, level note, DESIGN section)
 CHECKS = {
     'C20': ('bounded-exhaustive operation sequences + Hypothesis histories vs list+index model',
-            'every operation sequence up to depth 3 (quick) / 4 (thorough) over ~55 operation templates and 12 '
+            'every operation sequence up to depth 3 (quick) / 4 (thorough) over 73 operation templates and 13 '
             'string- and token-backed sources is executed on a fresh Buffer and on a list+index model, comparing '
-            'return value, exception class and cursor after every step; random histories of up to 40 steps beyond. '
+            'return value, exception class and cursor after every step; random histories of up to 40 steps beyond, and histories on buffers of thousands of items whose single moves / look-aheads / scans span 33..1025 items. '
             'Exploration: absence is shown only within those bounds.',
             'trusts the model (a Python list and an int) and the tokenizer only as a source of token sequences',
             '3/C20'),
@@ -31,9 +31,9 @@ CHECKS['C18'] = (
 CHECKS['C19'] = (
     'exhaustive code-point sweep + bounded-exhaustive strings + Hypothesis strings, two-pointer partition oracle',
     'all 1,114,112 code points (alone and embedded) and every string of <=4 (quick) / <=5 (thorough) symbols over a '
-    '31-symbol category/word alphabet are categorised and tokenised; oracle: one category item per character with its '
+    '37-symbol category/word alphabet are categorised and tokenised; oracle: one category item per character with its '
     'index; tokens non-empty, aligned left-to-right against the input skipping only NUL/DEL, each recording the offset '
-    'where its text starts. Random strings up to 60 symbols beyond. Exhaustive within the stated bounds, exploration beyond.',
+    'where its text starts. Random strings up to 60 symbols and 14 units repeated to 25 exact lengths up to 70,001 characters beyond. Exhaustive within the stated bounds, exploration beyond.',
     'trusts str indexing; does not judge WHICH category a character gets, only that it is exactly one, context-free',
     '3/C19')
 
@@ -43,7 +43,7 @@ CHECKS['C01'] = (
     'normaliser repairs lexical hazards by construction (counted); oracle: parse succeeds, str(soup)==source, every '
     'node/argument/text leaf equals the source slice at its recorded position; plus the repository samples and '
     'documentation literals. ~10k documents quick, ~350k thorough. Exploration.',
-    'trusts the generator/renderer (validated against the parser on >50k documents); finding D6 (verbatim inside items/groups) is excluded by construction and counted',
+    'trusts the generator/renderer (validated against the parser on >50k documents); includes synthetic long constructs, documents of up to 70K characters and chains nested as deeply as the pinned tree can handle',
     '3/C01')
 CHECKS['C02'] = (
     'grammar-based generation + canonical-tree equality against the generating syntax tree',
@@ -72,7 +72,7 @@ CHECKS['C13'] = (
     'grammar-based generation + exhaustive {a,LF} strings, reference offset/line/column/regex oracles',
     'positions of all nodes/arguments/text tokens are compared with source slices; char_pos_to_line is compared with a '
     'count/rfind reference at every offset of every document and of all strings over {a,LF} up to length 11 (14 '
-    'thorough, exhaustive); search_regex is compared with re.finditer over the text leaves for 11 regexes. Exploration '
+    'thorough, exhaustive); search_regex is compared with re.finditer over the text leaves for 19 regexes (groups, look-around, precompiled); the line map is asked front to back, back to front and scattered on one parse; documents of 9K..70K characters and twin paragraphs of more than 1K. Exploration '
     '(exhaustive for the line map within the bound).',
     'fresh parses only; LF line structure',
     '3/C13')
